@@ -63,7 +63,7 @@ def plan(tier, seed):
 
 def finalize(agg, tier):
     r = []
-    for c in ("requests_decoded_by_receiver", "iov_lists_checked", "replies_checked", "ntlm_replies_checked", "hresult_replies_checked", "multi_request_connections"):
+    for c in ("requests_decoded_by_receiver", "iov_lists_checked", "unwrap_iov_lists_checked", "replies_checked", "ntlm_replies_checked", "hresult_replies_checked", "multi_request_connections"):
         if agg.counter(c) == 0:
             r.append(f"monitor never reached: {c}")
     if len(agg.sets.get("stub_mod16", ())) < 16:
@@ -144,6 +144,25 @@ def verify_request(rec: Recorder, wire: bytes, ctx: tr.ScriptedContext, stub: by
     return m
 
 
+def verify_unwrap(rec: Recorder, ctx: tr.ScriptedContext, reply: bytes, sig: int, sign: bool, wit: dict) -> None:
+    """What the client hands to the security context for the reply: header (24) and trailer (8) as sign_only iff header
+    signing is on (else data_readonly), exactly the ciphertext region as data, the signature as the header buffer."""
+    unwraps = [e for e in ctx.log if e[0] == "unwrap"]
+    if len(unwraps) != 1:
+        rec.violation("unwrap-count", f"{len(unwraps)} unwrap_iov calls for one sealed reply", wit)
+        return
+    iov = unwraps[0][1]
+    rec.count("unwrap_iov_lists_checked")
+    st = BT.sign_only if sign else BT.data_readonly
+    types = [bt for bt, _ in iov]
+    off = len(reply) - sig - 8
+    if types != [st, BT.data, st, BT.header]:
+        rec.violation("header-sign-decision-reply", f"unwrap IOV buffer types {[x.name for x in types]}, expected {[st.name, 'data', st.name, 'header']} (header signing {'on' if sign else 'off'})", wit)
+        return
+    if iov[0][1] != reply[:24] or iov[1][1] != reply[24:off] or iov[2][1] != reply[off : off + 8] or iov[3][1] != reply[off + 8 :]:
+        rec.violation("unwrap-regions", "buffers handed to unwrap_iov are not (header 24, ciphertext region, trailer 8, signature) of the reply", wit)
+
+
 def make_client(client: str, sock_or_stream, ctx: tr.ScriptedContext):
     from dpapi_ng._rpc import _auth
     from dpapi_ng._rpc import _client as rc
@@ -190,7 +209,8 @@ def run_request(spec, rec: Recorder):
                             trailer = struct.pack("<BBBBI", 10, 6, padn, 0, 0)
                             st = BT.sign_only if sign else BT.data_readonly
                             res = server.wrap_iov([(st, header), body, (st, trailer), BT.header], encrypt=True, qop=None)
-                            return [header + res.buffers[1].data + trailer + res.buffers[3].data]
+                            state["reply"] = header + res.buffers[1].data + trailer + res.buffers[3].data
+                            return [state["reply"]]
 
                         wit = {"stub_len": n, "vt": use_vt, "sig": sig, "sign": sign, "client": client_kind, "stub": stub}
                         try:
@@ -217,6 +237,7 @@ def run_request(spec, rec: Recorder):
                             rec.violation("request-not-sent", "no request PDU reached the transport", wit)
                             continue
                         verify_request(rec, state["req"], ctx, stub, vt_ref if use_vt else None, sig, sign, wit)
+                        verify_unwrap(rec, ctx, state["reply"], sig, sign, wit)
                         # the reply the client returned must be the plaintext the server sealed (pad still attached at this layer)
                         exp = reply_stub + b"\xbb" * (-len(reply_stub) % 16)
                         if resp.stub_data != exp:
